@@ -91,6 +91,14 @@ class Scenario:
         for index in range(params.get("blocked_threads", 0)):
             kit.submit({"id": "blocked%d" % index, "flavour": "threading",
                         "steps": [("section", 1), ("block",)]})
+        if params.get("thread_from"):
+            # a thread payload adopted from inside a coroutine payload
+            carrier = params["thread_from"]
+            kit.submit({"id": "tcarrier", "flavour": carrier,
+                        "steps": [("sleep", 0.5),
+                                  ("adopt", {"id": "blocked-late", "flavour": "threading",
+                                             "steps": [("section", 1), ("block",)]}),
+                                  ("forever", 0.5)]})
         for index, source in enumerate(params["sources"]):
             desc = {"id": "m%d" % index, "flavour": flavour,
                     "steps": [("section", params.get("sections", 3))]}
@@ -186,7 +194,14 @@ class Scenario:
             if who in coroutine_threads or who == "main" or loop is not None or token is not None:
                 violations.append(("%s:thread-payload-on-coroutine-thread" % flavour,
                                    "a thread payload ran in %r" % ((who, loop, token),)))
-        if self.params.get("window"):
+        refused = any(event == "thread-start-refused" for _s, _n, _w, event, _d in ex.log)
+        if refused:
+            # the environment refused a thread: the runtime may fail, but a thread payload
+            # still never runs on a coroutine thread (checked above), and accept() ends
+            if self.outcome is None:
+                violations.append(("%s:did-not-end-after-refused-thread" % flavour,
+                                   "accept() did not end"))
+        elif self.params.get("window"):
             if self.outcome is None:
                 violations.append(("%s:did-not-end" % flavour, "accept() did not end"))
         elif self.outcome is None:
@@ -225,6 +240,11 @@ def scenario_params(tier):
                     out.append({"flavour": flavour, "sources": list(sources),
                                 "blocked_threads": blocked_threads,
                                 "sections": 3 if size == 2 else 2})
+    # the OS refuses to start a payload thread (an injected environment fault, one deviation)
+    for flavour in ("asyncio", "trio"):
+        for thread_from in (None, "asyncio", "trio"):
+            out.append({"flavour": flavour, "sources": ["queued"], "blocked_threads": 1,
+                        "thread_from": thread_from, "faults": True, "sections": 3})
     return out
 
 
@@ -235,7 +255,8 @@ def run(ctx):
         "module": "checks.c11", "params": params,
         "bound": bound if in_core(params) else 1,
         "opts": {"time_horizon": 30.0, "drain": 2.0, "max_points": 8000, "free_switch_cost": 1,
-                     "time_jump_cost": None if ctx.quick else 1},
+                 "time_jump_cost": None if ctx.quick else 1,
+                 "thread_start_faults": bool(params.get("faults"))},
         "budget": 3000 if ctx.quick else 30000,
     } for params in scenario_params(ctx.tier)]
     ctx.pmap(H.shard, specs)
